@@ -204,19 +204,50 @@ func (x *Exec) discharge(o *Obligation, outDir string, timeoutMs int, twoSolvers
 	pending := idx
 	t0 := time.Now()
 	var agree map[int]int
-	if twoSolvers {
-		agree = map[int]int{}
+	record := func(name string) {
+		if res.Solver == "" {
+			res.Solver = name
+		} else if !strings.Contains(res.Solver, name) {
+			res.Solver += "+" + name
+		}
 	}
-	for si, sp := range solvers {
-		if len(pending) == 0 {
-			break
+	fail := func(sp solverSpec, i int, raw string) OblResult {
+		if o.Kind == "cover" {
+			res.Status = "vacuous"
+		} else {
+			res.Status = "failed"
 		}
-		f := file
-		if si > 0 {
-			f = filepath.Join(outDir, sanitizeFile(o.Name)+"."+sp.name+".smt2")
-			x.writeQuery(f, o, pending, false)
+		res.Solver = sp.name
+		res.Output = raw
+		res.FailTrail = o.Instances[i].Trail
+		if o.Kind != "cover" {
+			mf := filepath.Join(outDir, sanitizeFile(o.Name)+".model.smt2")
+			x.writeQuery(mf, o, []int{i}, true)
+			_, mraw, _ := runSolver(sp, mf, timeoutMs, 1)
+			if len(o.Instances[i].Small) > 0 {
+				// prefer a small counterexample for the replay
+				x.writeQuery2(mf, o, []int{i}, true, true)
+				if sres, sraw, _ := runSolver(sp, mf, timeoutMs, 1); len(sres) == 1 && sres[0] == "sat" {
+					mraw = sraw
+				} else {
+					x.writeQuery(mf, o, []int{i}, true)
+				}
+			}
+			res.Model = mraw
+			res.Observed = parseGetValue(mraw, o.Instances[i].Observes)
+			res.Panicking = strings.Contains(o.Kind, "panic")
 		}
-		out, raw, _ := runSolver(sp, f, timeoutMs, len(pending))
+		res.Ms = time.Since(t0).Milliseconds()
+		return res
+	}
+	// stage 1: the fastest solver with a short budget; stage 2: all solvers race on what is left
+	{
+		sp := solvers[0]
+		short := 2500
+		if short > timeoutMs {
+			short = timeoutMs
+		}
+		out, raw, _ := runSolver(sp, file, short, len(pending))
 		var still []int
 		for k, i := range pending {
 			r := "unknown"
@@ -225,49 +256,62 @@ func (x *Exec) discharge(o *Obligation, outDir string, timeoutMs int, twoSolvers
 			}
 			switch {
 			case r == want:
-				if res.Solver == "" {
-					res.Solver = sp.name
-				} else if !strings.Contains(res.Solver, sp.name) {
-					res.Solver += "+" + sp.name
-				}
+				record(sp.name)
 			case r == "sat" || r == "unsat":
-				// definite wrong answer
-				if o.Kind == "cover" {
-					res.Status = "vacuous"
-				} else {
-					res.Status = "failed"
-				}
-				res.Solver = sp.name
-				res.Output = raw
-				res.FailTrail = o.Instances[i].Trail
-				if o.Kind != "cover" {
-					mf := filepath.Join(outDir, sanitizeFile(o.Name)+".model.smt2")
-					x.writeQuery(mf, o, []int{i}, true)
-					_, mraw, _ := runSolver(sp, mf, timeoutMs, 1)
-					if len(o.Instances[i].Small) > 0 {
-						// prefer a small counterexample for the replay
-						x.writeQuery2(mf, o, []int{i}, true, true)
-						if sres, sraw, _ := runSolver(sp, mf, timeoutMs, 1); len(sres) == 1 && sres[0] == "sat" {
-							mraw = sraw
-						} else {
-							x.writeQuery(mf, o, []int{i}, true)
-						}
-					}
-					res.Model = mraw
-					res.Observed = parseGetValue(mraw, o.Instances[i].Observes)
-					res.Panicking = strings.Contains(o.Kind, "panic")
-				}
-				res.Ms = time.Since(t0).Milliseconds()
-				return res
+				return fail(sp, i, raw)
 			default:
 				still = append(still, i)
 				res.Output = raw
 			}
 		}
 		pending = still
-		if si > 0 {
-			os.Remove(f)
+	}
+	if len(pending) > 0 {
+		type ans struct {
+			sp  solverSpec
+			out []string
+			raw string
 		}
+		ch := make(chan ans, len(solvers))
+		for _, sp := range solvers {
+			sp := sp
+			go func() {
+				f := filepath.Join(outDir, sanitizeFile(o.Name)+"."+sp.name+".smt2")
+				x.writeQuery(f, o, pending, false)
+				out, raw, _ := runSolver(sp, f, timeoutMs, len(pending))
+				os.Remove(f)
+				ch <- ans{sp, out, raw}
+			}()
+		}
+		decided := map[int]bool{}
+		for n := 0; n < len(solvers) && len(decided) < len(pending); n++ {
+			a := <-ch
+			for k, i := range pending {
+				if decided[i] {
+					continue
+				}
+				r := "unknown"
+				if k < len(a.out) {
+					r = a.out[k]
+				}
+				switch {
+				case r == want:
+					decided[i] = true
+					record(a.sp.name)
+				case r == "sat" || r == "unsat":
+					return fail(a.sp, i, a.raw)
+				default:
+					res.Output = a.raw
+				}
+			}
+		}
+		var still []int
+		for _, i := range pending {
+			if !decided[i] {
+				still = append(still, i)
+			}
+		}
+		pending = still
 	}
 	_ = agree
 	res.Ms = time.Since(t0).Milliseconds()
@@ -443,46 +487,56 @@ func smtValueToGo(v string) string {
 func (x *Exec) dischargeCoverAny(o *Obligation, outDir string, timeoutMs int, res OblResult) OblResult {
 	file := filepath.Join(outDir, sanitizeFile(o.Name)+".smt2")
 	res.File = file
-	var idx []int
-	for i := range o.Instances {
-		idx = append(idx, i)
+	// cheapest instances first (few quantified facts, short path condition)
+	idx := make([]int, len(o.Instances))
+	cost := make([]int, len(o.Instances))
+	for i, in := range o.Instances {
+		idx[i] = i
+		for _, p := range in.PC {
+			cost[i] += 1 + 50*strings.Count(p.S, "forall")
+		}
 	}
-	if err := x.writeQuery(file, o, idx, false); err != nil {
-		res.Status = "unknown"
-		return res
-	}
+	sort.Slice(idx, func(a, b int) bool { return cost[idx[a]] < cost[idx[b]] })
 	t0 := time.Now()
-	short := timeoutMs
-	if short > 3000 {
-		short = 3000
-	}
-	for _, sp := range solvers[:2] {
-		out, raw, _ := runSolver(sp, file, short, len(idx))
-		res.Output = raw
-		for _, r := range out {
-			if r == "sat" {
+	allUnsat := true
+	tried := 0
+	for _, i := range idx {
+		if tried >= 8 {
+			allUnsat = false
+			break
+		}
+		tried++
+		if err := x.writeQuery(file, o, []int{i}, false); err != nil {
+			res.Status = "unknown"
+			return res
+		}
+		decided := false
+		for _, sp := range solvers[:2] {
+			out, raw, _ := runSolver(sp, file, 1500, 1)
+			res.Output = raw
+			if len(out) == 1 && out[0] == "sat" {
 				res.Status = "covered"
 				res.Solver = sp.name
 				res.Ms = time.Since(t0).Milliseconds()
 				return res
 			}
-		}
-		allUnsat := len(out) == len(idx)
-		for _, r := range out {
-			if r != "unsat" {
-				allUnsat = false
+			if len(out) == 1 && out[0] == "unsat" {
+				decided = true
+				break
 			}
 		}
-		if allUnsat {
-			res.Status = "vacuous"
-			res.Solver = sp.name
-			res.Ms = time.Since(t0).Milliseconds()
-			return res
+		if !decided {
+			allUnsat = false
 		}
 	}
-	// undecided reachability is not an alarm: it is reported as covered-unknown
+	res.Ms = time.Since(t0).Milliseconds()
+	if allUnsat && tried == len(idx) {
+		res.Status = "vacuous"
+		res.Solver = "z3"
+		return res
+	}
+	// undecided reachability is not an alarm
 	res.Status = "covered"
 	res.Solver = "undecided(sat not confirmed)"
-	res.Ms = time.Since(t0).Milliseconds()
 	return res
 }
